@@ -22,9 +22,13 @@ Bound to the code:
 import collections
 import json
 import random
+import time
+
+from fractions import Fraction as F
 
 from . import c15
 from .c15 import METHODS, DEG, reproduced_degree, fr, point_of, table_of, make_interp, close_exact, nproc
+from ..tlc import MachineryError
 from ..util import pmap
 
 TRAIN = ['slinear', 'lagrange2', 'lagrange3', 'akima', 'cubic', 'scipy_slinear', 'scipy_cubic', 'scipy_quintic']
@@ -366,6 +370,243 @@ def check_spline(s0, pts, table, t2, scale, scale2, fails, cnt):
                                  'S: SplineComp output / partials = InterpND.evaluate_spline value / Jacobian'))
 
 
+# ---- Akima's interpolant with smoothing (delta_x > 0): exact value and derivatives from Interp.tla (Akima) ----------
+class _Dual:
+    """value and derivatives w.r.t. the table values as Fractions (independent reference for the spec's numbers)"""
+
+    def __init__(self, v, d):
+        self.v, self.d = F(v), [F(x) for x in d]
+
+    def __add__(self, o):
+        return _Dual(self.v + o.v, [x + y for x, y in zip(self.d, o.d)])
+
+    def __sub__(self, o):
+        return _Dual(self.v - o.v, [x - y for x, y in zip(self.d, o.d)])
+
+    def __mul__(self, o):
+        return _Dual(self.v * o.v, [self.v * y + o.v * x for x, y in zip(self.d, o.d)])
+
+    def __truediv__(self, o):
+        return _Dual(self.v / o.v, [(x * o.v - self.v * y) / (o.v * o.v) for x, y in zip(self.d, o.d)])
+
+    def scale(self, c):
+        return _Dual(self.v * c, [x * c for x in self.d])
+
+
+def _abs_smooth(a, dl):
+    if a.v >= dl:
+        return a
+    if a.v <= -dl:
+        return a.scale(-1)
+    return _Dual(a.v * a.v / (2 * dl) + dl / 2, [a.v * x / dl for x in a.d])
+
+
+def akima_ref(g, T, dl, x):
+    """-> (value, d/dx, [d/dT_k], number of nonzero weight arguments inside the rounded section)"""
+    n = len(g)
+    Td = [_Dual(T[j], [1 if k == j else 0 for k in range(n)]) for j in range(n)]
+    M = {j: (Td[j + 1] - Td[j]).scale(F(1, g[j + 1] - g[j])) for j in range(n - 1)}
+    M[-1] = M[0].scale(2) - M[1]
+    M[-2] = M[-1].scale(2) - M[0]
+    M[n - 1] = M[n - 2].scale(2) - M[n - 3]
+    M[n] = M[n - 1].scale(2) - M[n - 2]
+    i = max(j for j in range(n - 1) if g[j] <= x)
+    m1, m2, m3, m4, m5 = (M[i + k] for k in (-2, -1, 0, 1, 2))
+    args = (m4 - m3, m2 - m1, m5 - m4, m3 - m2)
+    w2, w31, w32, w4 = (_abs_smooth(a, dl) for a in args)
+    b = (m2 * w2 + m3 * w31) / (w2 + w31)
+    bp1 = (m3 * w32 + m4 * w4) / (w32 + w4)
+    h = F(g[i + 1] - g[i])
+    c = (m3.scale(3) - b.scale(2) - bp1).scale(1 / h)
+    d = (b + bp1 - m3.scale(2)).scale(1 / (h * h))
+    t = F(x) - g[i]
+    y = Td[i] + b.scale(t) + c.scale(t * t) + d.scale(t ** 3)
+    return y.v, b.v + 2 * c.v * t + 3 * d.v * t * t, y.d, sum(1 for a in args if 0 < abs(a.v) < dl)
+
+
+def ak_crosscheck(e):
+    s, o = e['s'], e['o']
+    v, dx, dT, rounded = akima_ref(s['g'], s['T'], F(s['dl'][0], s['dl'][1]), F(s['X'], 4))
+    if fr(o['v']) != v or fr(o['dx']) != dx or [fr(t) for t in o['dT']] != dT or o['rounded'] != rounded:
+        raise MachineryError('Akima: spec / reference disagree: %s' % json.dumps(e)[:400])
+
+
+AK_TOL = 1e-9
+
+
+def check_ak_group(item):
+    """one (grid, table, delta_x) with all its evaluation points -> (counters, {point index: [failure]})"""
+    import numpy as np
+    import openmdao.api as om
+    from openmdao.components.interp_util.interp import InterpND
+    from ..util import quiet
+    quiet()
+    g, T, dl, pts, do_comp = item
+    grid = np.array(g, dtype=float)
+    tab = np.array(T, dtype=float)
+    delta = dl[0] / dl[1]
+    n = len(g)
+    order = sorted(range(len(pts)), key=lambda j: pts[j][0])
+    xs = np.array([pts[j][0] for j in order], dtype=float)
+    scale = float(np.max(np.abs(tab)))
+    fails = collections.defaultdict(list)
+    cnt = collections.Counter()
+
+    def near(a, b):
+        return abs(a - b) <= AK_TOL * (1.0 + abs(b) + scale)
+
+    def judge(j, m, via, v, dT, dx):
+        """the derivative clauses are judged where the returned value is the value of the spec's definition"""
+        x, wv, wdx, wdT, rounded = pts[j]
+        cnt['compared'] += 1
+        if v is not None and not near(v, wv):
+            cnt['value_differs_from_definition'] += 1
+            return
+        if dT is not None and any(not near(float(a), b) for a, b in zip(dT, wdT)):
+            fails[j].append((m, via, {'returned': [float(a) for a in dT], 'derivative_of_the_value': wdT},
+                             'A: d value / d table values of the Akima interpolant with delta_x > 0 is the derivative of '
+                             'the returned value'))
+        if dx is not None and not near(float(dx), wdx):
+            fails[j].append((m, via, {'returned': float(dx), 'derivative_of_the_value': wdx},
+                             'A: d value / d x of the Akima interpolant with delta_x > 0 is the derivative of the '
+                             'returned value'))
+
+    # the interpolating spline (all points at once)
+    try:
+        it = InterpND(method='akima', points=grid, x_interp=xs, delta_x=delta)
+        y, J = it.evaluate_spline(tab.copy(), compute_derivative=True)
+        y = np.asarray(y, dtype=float).ravel()
+        J = np.asarray(J, dtype=float).reshape(len(xs), n)
+        cnt['calls'] += 1
+        cnt['spline_evals'] += 1
+        for k, j in enumerate(order):
+            judge(j, 'akima', 'InterpND.evaluate_spline(delta_x=%s)' % delta, float(y[k]), J[k], None)
+    except Exception as e:      # noqa: BLE001
+        y = None
+        fails[order[0]].append(('akima', 'InterpND.evaluate_spline(delta_x=%s)' % delta,
+                                ('exc', '%s: %s' % (type(e).__name__, str(e)[:140])), 'no error expected for interior points'))
+    if do_comp:
+        try:
+            p = om.Problem()
+            sc = om.SplineComp(method='akima', x_cp_val=grid, x_interp_val=xs, vec_size=1, interp_options={'delta_x': delta})
+            sc.add_spline(y_cp_name='ycp', y_interp_name='y', y_cp_val=tab.copy())
+            p.model.add_subsystem('sc', sc, promotes=['*'])
+            p.setup()
+            p.run_model()
+            Jc = np.asarray(p.compute_totals(of=['y'], wrt=['ycp'])['y', 'ycp'], dtype=float).reshape(len(xs), n)
+            yc = np.asarray(p.get_val('y'), dtype=float).ravel()
+            cnt['calls'] += 1
+            for k, j in enumerate(order):
+                judge(j, 'akima', 'SplineComp(interp_options={delta_x: %s})' % delta, float(yc[k]), Jc[k], None)
+        except Exception as e:      # noqa: BLE001
+            fails[order[0]].append(('akima', 'SplineComp', ('exc', '%s: %s' % (type(e).__name__, str(e)[:140])),
+                                    'no error expected for interior points'))
+    # the table interpolant: value, d/dx (general and fixed-dimension method), d/d table the way the component gets it
+    for m in ('akima', '1D-akima'):
+        try:
+            it = InterpND(method=m, points=grid, values=tab.copy(), delta_x=delta)
+        except Exception as e:      # noqa: BLE001
+            fails[order[0]].append((m, 'InterpND(delta_x=%s)' % delta, ('exc', '%s: %s' % (type(e).__name__, str(e)[:140])),
+                                    'no error expected'))
+            continue
+        for j in order:
+            x = pts[j][0]
+            try:
+                v, d = it.interpolate(np.array([[x]], dtype=float), compute_derivative=True)
+                cnt['calls'] += 1
+                judge(j, m, 'InterpND.interpolate(compute_derivative=True, delta_x=%s)' % delta,
+                      float(np.asarray(v).ravel()[0]), None, float(np.asarray(d).ravel()[0]))
+                if m == 'akima':
+                    it2 = InterpND(method=m, points=grid, values=tab.copy(), delta_x=delta)
+                    it2._compute_d_dvalues = True
+                    v2 = it2._interpolate(np.array([[x]], dtype=float))
+                    cnt['calls'] += 1
+                    cnt['train_grads'] += 1
+                    judge(j, m, 'InterpND training gradient (delta_x=%s)' % delta, float(np.asarray(v2).ravel()[0]),
+                          np.asarray(it2._d_dvalues, dtype=float)[0].ravel(), None)
+            except Exception as e:      # noqa: BLE001
+                fails[j].append((m, 'InterpND.interpolate(delta_x=%s)' % delta,
+                                 ('exc', '%s: %s' % (type(e).__name__, str(e)[:140])), 'no error expected at an interior point'))
+    return dict(cnt), dict(fails)
+
+
+def _ak_worker(chunk):
+    return [check_ak_group(it) for it in chunk]
+
+
+def run_akima(ctx, quick):
+    """the family of Interp.tla (InitAk / ChooseAk): exact Akima value and derivatives for delta_x > 0"""
+    mod = 32 if quick else 4
+    cfg = c15.write_cfg(ctx, 'InterpAkima.cfg', dims=[1], npoly=1, all1d=False, nrep=1, nrep3=1, full2d=False,
+                        interior=True, exset=[False], akima=(mod, ctx.seed % mod))
+    r = ctx.tlc_check('mech/Interp', cfg, workers=nproc(), timeout=2400, heap='8g')
+    ctx.require_actions(['ChooseAk'])
+    exps = r.exports('AK')
+    if not exps:
+        raise MachineryError('no Akima scenarios exported')
+    groups = collections.OrderedDict()
+    for e in sorted(exps, key=lambda e: json.dumps(e['s'], sort_keys=True)):
+        ak_crosscheck(e)
+        s, o = e['s'], e['o']
+        groups.setdefault(json.dumps([s['g'], s['T'], s['dl']]), []).append(e)
+    rnd = random.Random(ctx.seed)
+    items = []
+    for es in groups.values():
+        s = es[0]['s']
+        pts = [(e['s']['X'] / 4.0, float(fr(e['o']['v'])), float(fr(e['o']['dx'])), [float(fr(t)) for t in e['o']['dT']],
+                e['o']['rounded']) for e in es]
+        items.append((s['g'], s['T'], s['dl'], pts, rnd.randrange(4) == 0))
+    n = nproc()
+    idx_chunks = [c for c in ([i for i in range(k, len(items), n * 4)] for k in range(n * 4)) if c]
+    res = pmap(_ak_worker, [[items[i] for i in c] for c in idx_chunks], nproc=n)
+    tot = collections.Counter()
+    glist = list(groups.values())
+    for ids, rs in zip(idx_chunks, res):
+        for gi, (cnt, fails) in zip(ids, rs):
+            tot.update(cnt)
+            es = glist[gi]
+            for e in es:
+                if e['o']['rounded'] > 0:
+                    ctx.note_nontrivial(json.dumps(['akima', e['s']['g'], e['s']['T'], e['s']['dl'], e['s']['X']]))
+            for j, fl in sorted(fails.items()):
+                e = es[int(j)]
+                byc = collections.OrderedDict()
+                for f in fl:
+                    byc.setdefault(f[3], []).append(f)
+                for clause, fs in byc.items():
+                    scen = dict(e['s'])
+                    scen['x'] = e['s']['X'] / 4.0
+                    scen['failing'] = [[f[0], f[1], f[2], f[3]] for f in fs]
+                    ctx.violation(scen, e['o'], [[f[0], f[1], f[2]] for f in fs],
+                                  '%s [%s]' % (clause, ', '.join(sorted(set(f[0] for f in fs)))),
+                                  snippet='replay with: ./check C16 --replay <this file>')
+    if tot['value_differs_from_definition'] > 0.5 * max(1, tot['compared']):
+        raise MachineryError('Akima: the values the code returns are not those of the spec\'s definition in %d of %d '
+                             'comparisons: the derivative oracle does not apply' %
+                             (tot['value_differs_from_definition'], tot['compared']))
+    pick = [e for e in exps if e['o']['rounded'] > 0][:1] or exps[:1]
+    return len(exps), sum(1 for e in exps if e['o']['rounded'] > 0), tot, pick[0]
+
+
+def replay_akima(ctx, rec):
+    s, o = rec['scenario'], rec['expected']
+    base = {k: v for k, v in s.items() if k not in ('x', 'failing')}
+    cfg = c15.write_cfg(ctx, 'InterpAkimaReplay.cfg', dims=[1], npoly=1, all1d=False, nrep=1, nrep3=1, full2d=False,
+                        interior=True, exset=[False], akima=(997, 0))
+    ctx.tlc_check('mech/Interp', cfg, workers=2, timeout=1200, heap='4g')      # the laws on a small sample
+    ak_crosscheck({'s': base, 'o': o})
+    pts = [(base['X'] / 4.0, float(fr(o['v'])), float(fr(o['dx'])), [float(fr(t)) for t in o['dT']], o['rounded'])]
+    cnt, fails = check_ak_group((base['g'], base['T'], base['dl'], pts, True))
+    ctx.impl = 1
+    ctx.evaluations = cnt.get('calls', 0)
+    ctx.rule = 'replay of one stored Akima scenario'
+    ctx.sample({'replayed': ctx.replay, 'failures': [[f[0], f[1], f[2], f[3]] for fl in fails.values() for f in fl]})
+    for fl in fails.values():
+        scen = dict(base)
+        scen['failing'] = [[f[0], f[1], f[2], f[3]] for f in fl]
+        ctx.violation(scen, o, [[f[0], f[1], f[2]] for f in fl], rec['clause'])
+
+
 def hat_table(s, o):
     """outer product of the spec's per-axis hat weights (None unless the spec exported them)."""
     import numpy as np
@@ -427,10 +668,14 @@ def replay(ctx):
     with open(ctx.replay) as f:
         rec = json.load(f)
     s, o = rec['scenario'], rec['expected']
+    if s.get('fam') == 'akima':
+        return replay_akima(ctx, rec)
     # the laws are re-checked by TLC on a small bound; the stored expectation must equal the Fraction reference
     cfg = c15.write_cfg(ctx, 'InterpReplay.cfg', dims=[1], npoly=1, all1d=False, nrep=2, nrep3=1, full2d=False,
                     interior=False, exset=[True, False])
     c15.run_tlc(ctx, cfg, timeout=600)
+    if 'hist' in s:
+        return c15.replay_history(ctx, 'C16', rec, 'grad')
     c15.crosscheck({'s': s, 'o': o})
     item = build_items([(s, [{'s': s, 'o': o}])], ctx, 1, 1)[0]
     cnt, fails = check_group(item)
@@ -457,7 +702,9 @@ def run(ctx):
     else:
         cfg = c15.write_cfg(ctx, 'Interp16.cfg', dims=[1, 2, 3], npoly=2, all1d=True, nrep=8, nrep3=3, full2d=True,
                             interior=True, exset=[False])
+    marks = [('start', time.time())]
     r, exports = c15.run_tlc(ctx, cfg)
+    marks.append(('tlc', time.time()))
     groups = c15.group(exports)
     items = build_items(groups, ctx, mm_every=5, spline_every=3)
     n = nproc()
@@ -486,7 +733,32 @@ def run(ctx):
                     ctx.violation(scen, e['o'], [[f[0], f[1], f[2]] for f in fs],
                                   '%s [%s]' % (clause, ', '.join(sorted(set(f[0] for f in fs)))),
                                   snippet='replay with: ./check C16 --replay <this file>')
-    ctx.impl = nscen
+    marks.append(('replay', time.time()))
+    # ---- histories of queries on one object (InterpHist.tla x a reduced scenario base with a second point B) -------
+    hcfg = c15.write_cfg(ctx, 'InterpHistBase.cfg', dims=[1, 2, 3], npoly=1, all1d=False, nrep=3 if quick else 5,
+                         nrep3=1, full2d=False, interior=True, exset=[False], histpos=True, bkind='mid')
+    _, hexports = c15.run_tlc(ctx, hcfg)
+    hists = c15.run_hist_tlc(ctx, ['val', 'valD', 'grad'], True, 2)
+    if not quick:
+        h3 = c15.run_hist_tlc(ctx, ['val', 'valD', 'grad'], True, 3, refute=False)
+        random.Random(ctx.seed).shuffle(h3)
+        hists = hists + h3[:300]
+    marks.append(('hist_tlc', time.time()))
+    htot = c15.run_histories(ctx, 'C16', hexports, hists, 'grad', lambda s_: c15.methods_for(s_['dim']))
+    marks.append(('hist_replay', time.time()))
+    # ---- Akima with smoothing: exact derivatives from the spec's definition ------------------------------------------
+    n_ak, n_ak_rounded, atot, ak_sample = run_akima(ctx, quick)
+    marks.append(('akima', time.time()))
+    tot.update(atot)
+    ctx.extra['akima_scenarios'] = n_ak
+    ctx.extra['akima_scenarios_in_rounded_section'] = n_ak_rounded
+    for e in hexports:
+        ctx.note_nontrivial(json.dumps(['hist', e['s']['g'], e['s']['cls'], e['s']['pos']]))
+    tot.update(htot)
+    ctx.extra['history_scenarios'] = len(hexports)
+    ctx.extra['histories_per_scenario'] = len(hists)
+    ctx.extra['phase_wall_s'] = {b[0]: round(b[1] - a[1], 1) for a, b in zip(marks, marks[1:])}
+    ctx.impl = nscen + len(hexports) * len(hists) + n_ak
     ctx.evaluations = tot['calls']
     ctx.exhaustive = True
     ctx.extra['counters'] = dict(tot)
@@ -496,6 +768,7 @@ def run(ctx):
         [e for e in exports if e['s']['dim'] == 2 and e['s']['cls'] == 'lin'][:1]
     for e in pick:
         ctx.sample({'scenario': e['s'], 'spec_outcome': e['o']})
+    ctx.sample({'scenario': ak_sample['s'], 'spec_outcome': ak_sample['o']}, limit=4)
     ctx.rule = ('every scenario of Interp.tla with InteriorOnly: %s; x {multilinear, tensor-quadratic, tensor-cubic} integer '
                 'table x query point with every coordinate a cell midpoint or quarter point; each executed on InterpND '
                 '(gradient w.r.t. x: every reproducing method, single / vectorised / gradient(), fixed vs general; gradient '
